@@ -17,13 +17,18 @@ import (
 var c02Root = map[string]interface{}{
 	"r": "Rr", "all": "Rall", "z": "", "nm": "r", "p.q": "Rpq", "n": 5, "b": true,
 	"o": M{"k": "Rok"}, "l": L{"l0", "l1"},
+	"r2": vx.Exp(vx.Op{Kind: ":", Name: vx.Lit("er2"), RHS: vx.Lit("Rd")}),
 }
-var c02Env1 = map[string]interface{}{"e1": "E1e1", "e12": "E1e12", "all": "E1all", "p.r": "E1pr", "ed.x": "E1edx", "r": "E1r"}
+var c02Env1 = map[string]interface{}{"e1": "E1e1", "e12": "E1e12", "all": "E1all", "p.r": "E1pr", "ed.x": "E1edx", "r": "E1r",
+	// settings of the Env configuration that are expressions themselves: evaluated in the Env's own
+	// tree (er: its r, not the root's; er2/r2: the name r2 exists in both trees, as a reference to
+	// er2 in the root and as a plain value here - no cycle)
+	"er": vx.Exp(vx.Ref{Name: vx.Lit("r")}), "er2": vx.Exp(vx.Cat{vx.Lit("<"), vx.Ref{Name: vx.Lit("r2")}, vx.Lit(">")}), "r2": "E1r2"}
 var c02Env2 = map[string]interface{}{"e12": "E2e12"}
 var c02Res1 = map[string]string{"v1": "V1v1", "v12": "V1v12", "all": "V1all", "e1": "V1e1"}
 var c02Res2 = map[string]string{"v12": "V2v12"}
 
-var c02Names = []string{"r", "e1", "e12", "v1", "v12", "all", "u", "z", "p.q", "p.r", "ed.x"}
+var c02Names = []string{"r", "e1", "e12", "v1", "v12", "all", "u", "z", "p.q", "p.r", "ed.x", "er", "r2"}
 
 // nest turns a flat dotted map into nested maps.
 func nest(flat map[string]interface{}) M {
@@ -38,6 +43,9 @@ func nest(flat map[string]interface{}) M {
 				cur[s] = nx
 			}
 			cur = nx
+		}
+		if e, ok := v.(vx.Exp); ok {
+			v = e.Render()
 		}
 		cur[segs[len(segs)-1]] = v
 	}
@@ -57,6 +65,8 @@ func layerOf(flat map[string]interface{}) vx.Layer {
 			}
 		case L:
 			l[k] = vx.Setting{Plain: []interface{}(x)}
+		case vx.Exp:
+			l[k] = vx.Setting{Expr: x}
 		default:
 			l[k] = vx.Setting{Plain: v}
 		}
